@@ -90,6 +90,13 @@ TEXT = [
     "var r = 0; for (var i = 0; i < 3; ++i) { var &k = i; r = r + k }; r",
     "var s = 0; for (var i = 0; i < 4; ++i) { if (i == 1) { continue }; if (i == 3) { break }; s = s + i }; s",
     "def g() { for (var i = 0; i < 5; ++i) { if (i == 2) { return i * 7 } }; 0 }; g()",
+    # a declaration whose initializer mentions the declared name (the name is NOT yet in scope while its initializer runs), or has effects
+    "var x = 5; var r = 0; { var x = x + 1; r = x }; [x, r]",
+    "def f(n) { var n = n * 2; n }; f(4)",
+    "def g(v) { var size = size(v); size }; g([1, 2, 3])",
+    "var s = \"ab\"; { auto s = s + s; out(s) }; s",
+    "def t() { var y = 1; var y = h_out(5); y }; def h_out(a) { out(a); a }; t()",
+    "var x = 1; def u() { var x = x; x }; u()",
     # the counter of a compiled loop leaving the loop / the loop entered again while it runs: every entry has its own counter
     "def g(n) { for (var i = 0; i < 10; ++i) { if (i == n) { return i } }; 99 }; g(3) + g(5)",
     "def g(n) { for (var i = 0; i < 10; ++i) { if (i == n) { var &r = i; return r } }; 99 }; g(3) * 100 + g(5)",
